@@ -17,6 +17,7 @@ Vocabulary (defined in the lemma files, repeated here for the reader):
 import GemseoVerif.Lemmas.C11Inv
 import GemseoVerif.Lemmas.C11Ds
 import GemseoVerif.Lemmas.C11Pb
+import GemseoVerif.Lemmas.C11Rep
 
 namespace GV.C11
 
@@ -401,5 +402,88 @@ example : readSparse (writeCscAsIs 2 2 [[1, 2], [0, 3]]) = [[1, 0], [2, 3]] ∧
   refine ⟨?_, by decide⟩
   rw [csc_kept_as_is_reads_transposed 2 _ rfl]
   decide
+
+/-! ### The points of the file are, bit for bit, the points of the database
+
+The sections above identify a point with its database key. `HashableNdarray` makes equal arrays
+one key whatever their dtype (`[1, 2]` integer or float), the sign of their zeros or their memory
+layout: the database keeps the array stored FIRST. The representation layer of the model
+(`Rep`, `rstore`, `rexport`, `rreload`) follows the arrays themselves through the pending buffer
+and the group `x` of the file. `KeyHash H`: the hash identifies exactly the equal arrays. -/
+
+/-- **rep_run.** No history of stores (of any arrays, equal or not to the keys already present),
+    append / fresh exports and restarts raises, and the invariant `RInv` holds along it. -/
+theorem rep_run (H : Rep → κ) (hH : KeyHash H) (ops : List ROp) :
+    ∃ s, rrun H RState.init ops = some s ∧ RInv H s := by
+  suffices h : ∀ (s0 : RState κ) (m : Nat), RInvAt H s0 m →
+      ∃ s, rrun H s0 ops = some s ∧ RInv H s from h _ 0 (rinv_init H)
+  induction ops with
+  | nil => intro s0 m h0; exact ⟨s0, rfl, m, h0⟩
+  | cons op ops ih =>
+    intro s0 m h0
+    cases op with
+    | store r =>
+      obtain ⟨s, hs, hi⟩ := ih _ m (rinv_store H hH h0 r)
+      exact ⟨s, by simpa [rrun, rstep] using hs, hi⟩
+    | exportFile a =>
+      obtain ⟨s1, h1, _, h3, _⟩ := rinv_export H h0 a
+      obtain ⟨s, hs, hi⟩ := ih s1 _ h3
+      exact ⟨s, by simpa [rrun, rstep, h1] using hs, hi⟩
+    | reload =>
+      obtain ⟨s1, h1, _, _, h3⟩ := rinv_reload H hH h0
+      obtain ⟨s, hs, hi⟩ := ih s1 _ h3
+      exact ⟨s, by simpa [rrun, rstep, h1] using hs, hi⟩
+
+/-- **file_holds_the_arrays_the_database_holds.** After ANY history — in particular after a new
+    point was stored and then stored again through an equal array of another dtype / sign of zero
+    before the export — an export (append or fresh) succeeds, leaves the keys alone, and the
+    dataset `x/<i>` of the file is bit for bit the `i`-th key of the database (no dataset beyond);
+    this is also what ONE single export of the database to a new file holds (`renum 0 keys`). -/
+theorem file_holds_the_arrays_the_database_holds (H : Rep → κ) (hH : KeyHash H) (ops : List ROp)
+    (s : RState κ) (hs : rrun H RState.init ops = some s) (a : Bool) :
+    ∃ s', rexport s a = some s' ∧ s'.keys = s.keys ∧ (∀ i, alook i s'.fx = s.keys[i]?) ∧
+      (∀ i, alook i s'.fx = alook i (renum 0 s.keys)) := by
+  obtain ⟨s₁, h₁, m, hm⟩ := rep_run H hH ops
+  rw [hs] at h₁; cases h₁
+  obtain ⟨s', h1, h2, _, h4⟩ := rinv_export H hm a
+  exact ⟨s', h1, h2, h4, fun i => by rw [h4 i, alook_renum]; simp⟩
+
+/-- **restart_restores_the_exported_arrays.** A restart from the file right after an export gives
+    a database whose keys are bit for bit the keys of the database that was exported. -/
+theorem restart_restores_the_exported_arrays (H : Rep → κ) (hH : KeyHash H) (ops : List ROp)
+    (s : RState κ) (hs : rrun H RState.init ops = some s) (a : Bool) :
+    ∃ s' s'', rexport s a = some s' ∧ rreload H s' = some s'' ∧ s''.keys = s.keys ∧
+      s''.fx = s'.fx := by
+  obtain ⟨s₁, h₁, m, hm⟩ := rep_run H hH ops
+  rw [hs] at h₁; cases h₁
+  obtain ⟨s', h1, h2, h3, _⟩ := rinv_export H hm a
+  obtain ⟨s'', h5, h6, h7, _⟩ := rinv_reload H hH h3
+  exact ⟨s', s'', h1, h5, by rw [h6, List.take_length, h2], h7⟩
+
+/-- The history of the seeded change: a point exported, then a NEW integer point stored and
+    stored again through the equal float array, a point with a zero stored again with a negative
+    zero, append export, restart. -/
+def repDemoOps : List ROp :=
+  [.store ⟨0, [5, 7], []⟩, .exportFile true,
+   .store ⟨1, [1, 2], []⟩, .store ⟨0, [1, 2], []⟩,
+   .store ⟨0, [0, 3], []⟩, .store ⟨0, [0, 3], [0]⟩, .exportFile true, .reload]
+
+example : KeyHash (fun r : Rep => r.xs) := fun _ _ => Iff.rfl
+
+example : (rrun (fun r => r.xs) RState.init repDemoOps).map (fun s => (s.keys, s.fx)) =
+    some ([⟨0, [5, 7], []⟩, ⟨1, [1, 2], []⟩, ⟨0, [0, 3], []⟩],
+          [(0, ⟨0, [5, 7], []⟩), (1, ⟨1, [1, 2], []⟩), (2, ⟨0, [0, 3], []⟩)]) := by decide
+
+/-- Witness: with the pending buffer written unconditionally (`pending[hash(data)] = data`, the
+    `array_equal` guard dropped) the same history puts the LAST arrays in the file: `x/1` is the
+    float array while the database holds the integer one, `x/2` has the negative zero. The guard
+    of `add_pending_array` is needed. -/
+theorem unguarded_pending_buffer_writes_the_last_array :
+    ∃ s, rrunLast (fun r : Rep => r.xs) RState.init (repDemoOps.take 7) = some s ∧
+      s.keys[1]? = some ⟨1, [1, 2], []⟩ ∧ alook 1 s.fx = some ⟨0, [1, 2], []⟩ ∧
+      s.keys[2]? = some ⟨0, [0, 3], []⟩ ∧ alook 2 s.fx = some ⟨0, [0, 3], [0]⟩ := by
+  refine ⟨⟨[⟨0, [5, 7], []⟩, ⟨1, [1, 2], []⟩, ⟨0, [0, 3], []⟩], [],
+    [(0, ⟨0, [5, 7], []⟩), (1, ⟨0, [1, 2], []⟩), (2, ⟨0, [0, 3], [0]⟩)]⟩, by decide, by decide,
+    by decide, by decide, by decide⟩
 
 end GV.C11
